@@ -214,6 +214,10 @@ def qs_spec(rng, nq, nb):
             return ["ctrl", a, ["bsr", b, [float(x) for x in ax], ang, ph]]
         if k < 0.8:
             return ["named", "CR", [a, b, gen.rand_angle(rng)]]
+        if nq >= 3 and rng.random() < 0.5:      # controlled gates whose target is not a rotation: unsupported
+            c3 = [x for x in range(nq) if x not in (a, b)][0]
+            return rng.choice([["ctrl", c3, ["named", "CNOT", [a, b]]], ["ctrl", c3, ["mat", [a, b], gen.perm_matrix([0, 1, 3, 2])]],
+                               ["ctrl", c3, ["ctrl", a, ["bsr", b, [1.0, 0.0, 0.0], PI, PI / 2]]]])
         return ["mat", [a, b], gen.perm_matrix([0, 1, 3, 2])]
     if r < 0.92 and nb > 0:
         return ["measure", q, rng.randrange(nb)]
